@@ -100,6 +100,7 @@ func raceSite(report string) string {
 	var sigs []string
 	inStack := false
 	got := false
+	firstFn := ""
 	for i := 0; i < len(lines); i++ {
 		ln := lines[i]
 		t := strings.TrimSpace(ln)
@@ -110,7 +111,11 @@ func raceSite(report string) string {
 			continue
 		}
 		if t == "" {
+			if inStack && !got && firstFn != "" {
+				sigs = append(sigs, firstFn) // no golang/geo frame in this stack: name its innermost frame
+			}
 			inStack = false
+			firstFn = ""
 			continue
 		}
 		if strings.HasPrefix(t, "Goroutine ") {
@@ -118,6 +123,9 @@ func raceSite(report string) string {
 			continue
 		}
 		if inStack && !got {
+			if firstFn == "" && strings.HasSuffix(t, "()") && !strings.HasPrefix(t, "/") {
+				firstFn = strings.TrimSuffix(t, "()")
+			}
 			if strings.HasPrefix(t, "github.com/golang/geo/") {
 				fn := strings.TrimSuffix(strings.TrimPrefix(t, "github.com/golang/geo/"), "()")
 				loc := ""
